@@ -15,6 +15,9 @@ CONTEXTS = {
     "begin": "(begin 1 {T})",
     "let": "(let ((u 1)) {T})",
     "let*": "(let* ((u 1) (w u)) {T})",
+    # bindings whose values are procedures (made outside the frame that receives them: no frame refers to itself)
+    "let-proc": "(let ((u (lambda () n))) {T})",
+    "let*-proc": "(let* ((u 1) (w (lambda () u)) (v (lambda (k) (w)))) {T})",
     "cond-clause": "(cond ((= n -1) 'never) ((> n 0) {T}) (else 'never))",
     "cond-else": "(cond ((= n -1) 'never) (else {T}))",
     "cond-arrow": "(cond ((= n -1) 'never) ((> n 0) => (lambda (hit) {T})) (else 'never))",
@@ -206,7 +209,7 @@ def run(tier, seed):
     cases = core.mine(cases)
     ctx.rule = ("loops = tail-context path (every single context, %s compositions of two%s) x %d loop shapes x direct/apply call x N in {40, %d}; "
                 "stack depth and live heap sampled at every iteration by a native probe. distinct_nontrivial = distinct (shape, context path, call style) "
-                "loops whose probe series was judged" % ("all 256" if tier != "quick" else "40 sampled", ", 240 sampled of three" if tier != "quick" else "", len(SHAPES), bigN))
+                "loops whose probe series was judged" % ("all %d" % (len(NAMES) ** 2) if tier != "quick" else "40 sampled", ", 240 sampled of three" if tier != "quick" else "", len(SHAPES), bigN))
     ctx.assumptions = ["flat = stack drift <= 1 KiB after 3 warm-up iterations and heap slope <= 1 byte/iteration over the second half (measured: 0 on conforming loops, >= 6 KiB/iteration for a non-tail call)",
                        "'any iteration count' is sampled at the stated N only"]
     for leg in legs:
